@@ -7,6 +7,9 @@ use std::io;
 
 pub const TAG_READ: &str = "INJECTED-READ-ERROR";
 pub const TAG_SINK: &str = "INJECTED-SINK-ERROR";
+/// The kind of an injected error depends on where it is injected, so that "the error is handed
+/// back to the caller" can be checked for its kind as well as for its message.
+pub const ERR_KINDS: [io::ErrorKind; 6] = [io::ErrorKind::Other, io::ErrorKind::WouldBlock, io::ErrorKind::TimedOut, io::ErrorKind::PermissionDenied, io::ErrorKind::UnexpectedEof, io::ErrorKind::BrokenPipe];
 pub const TAG_WRITE: &str = "INJECTED-WRITE-ERROR";
 
 // ---------------------------------------------------------------------------
@@ -116,7 +119,7 @@ impl SimSink {
             }
             Some((k, Answer::Error)) if k == idx => {
                 self.answered = true;
-                Err(io::Error::new(io::ErrorKind::Other, TAG_SINK))
+                Err(io::Error::new(ERR_KINDS[idx % ERR_KINDS.len()], TAG_SINK))
             }
             _ => Ok(true),
         }
@@ -339,7 +342,7 @@ impl<'a> io::Read for SimReader<'a> {
                     ReadFault::Error => {
                         self.error_fired = true;
                         self.log.push((buf.len(), ReadOutcome::Error));
-                        return Err(io::Error::new(io::ErrorKind::Other, TAG_READ));
+                        return Err(io::Error::new(ERR_KINDS[idx % ERR_KINDS.len()], TAG_READ));
                     }
                     ReadFault::Interrupted => {
                         self.eintr_fired += 1;
@@ -388,11 +391,18 @@ pub struct SimWriter {
     pub budget: Option<usize>,
     pub failed: bool,
     pub writes_after_failure: usize,
+    /// Seeded: every write accepts only 1-7 bytes and one call in four is answered Interrupted
+    /// (a retry request) - no error, nothing lost.
+    pub flaky: Option<Rng>,
+    pub interrupted: usize,
 }
 
 impl SimWriter {
     pub fn new(budget: Option<usize>) -> SimWriter {
-        SimWriter { out: vec![], budget, failed: false, writes_after_failure: 0 }
+        SimWriter { out: vec![], budget, failed: false, writes_after_failure: 0, flaky: None, interrupted: 0 }
+    }
+    pub fn flaky(seed: u64) -> SimWriter {
+        SimWriter { flaky: Some(Rng::new(seed)), ..SimWriter::new(None) }
     }
 }
 
@@ -401,6 +411,15 @@ impl io::Write for SimWriter {
         if self.failed {
             self.writes_after_failure += 1;
             return Err(io::Error::new(io::ErrorKind::Other, TAG_WRITE));
+        }
+        if let Some(rng) = self.flaky.as_mut() {
+            if rng.chance(1, 4) {
+                self.interrupted += 1;
+                return Err(io::Error::new(io::ErrorKind::Interrupted, "simulated EINTR on write"));
+            }
+            let n = buf.len().min(1 + rng.below(7));
+            self.out.extend_from_slice(&buf[..n]);
+            return Ok(n);
         }
         match self.budget {
             None => {
